@@ -42,7 +42,7 @@ def call_unary(env, kind, n, mname, idx, inplace):
 def run(chk):
     facts = F.load("dbg")
     env = Env(facts)
-    nmax = 10 if chk.tier == "quick" else 12
+    nmax = 12
     regimes = {}
     chk.trust("rustc MIR construction and constant evaluation (nightly 1.97)")
     chk.trust("std summaries in analysis/stdmodel.py (slice iterators, swap, clone, Box/array views)")
